@@ -299,8 +299,9 @@ CHECKS["C15"] = dict(
          "generated schedules) for handler = code with a fixed voter set. Membership changes: the quorum / confchange layer is proved and tied; the protocol-level theorem "
          "(RSC) is about a model written from raft.go / raftexample; the executable config-aware handler RHC.handleC (RH.handle + applied index, pendingConfIndex and the "
          "configuration folded from the node's own log) is compared with RawNode on EVERY event of the member / member-partition schedules (add / add-learner / promote / remove, "
-         "ApplyConfChange, gates, snapshots carrying a ConfState, restarts), and its two config-reading decisions and config-specific inputs are proved to be RSC steps (RHC.*), but the full "
-         "refinement handleC -> RSC (RL1's simulation re-done over RSC) is NOT proved; the paged / lazy / batch membership profiles are judged by the safety predicates and the CF / GT / HP lines "
+         "ApplyConfChange, gates, snapshots carrying a ConfState, restarts), and the refinement handleC -> L1C -> RSC is PROVED (RHC.simC, RHC.handleC_in_StepC, RHC.runC_covered), so RHC.runC_safe states election safety, log matching, leader "
+         "completeness and state-machine safety for every run of that very function under any schedule incl. membership changes (one input excluded: a snapshot ignored for "
+         "'not in the ConfState' by a node whose commit index is still 0); the paged / lazy / batch membership profiles are judged by the safety predicates and the CF / GT / HP lines "
          "(config after each applied conf change, proposal gate, campaign gate); joint configurations entered through the log (EnterJoint/LeaveJoint/AutoLeave) are not in the protocol model; "
          "ReadIndex and leader transfer are outside both. Trusted: Lean kernel (propext, Classical.choice, Quot.sound), the Lean interpreter running the driver, the Go "
          "harness's projection/index shift/event classification, MemoryStorage as the persistence layer (the WAL is C16's subject). Flow control is abstracted "
